@@ -21,9 +21,11 @@ static std::string cmdNameMatch(const std::vector<std::string>& a) {
 }
 
 void registerValueCmds2();
+void registerValueCmds3();
 void registerValueCmds() {
 	cmdTable()["namematch"] = cmdNameMatch;
 	registerValueCmds2();
+	registerValueCmds3();
 }
 
 // ---- Data tree wire format (python -> worker): a<t><len>:<bytes>  A<n> items  M<n> (<len>:<key> value)* ----
@@ -158,3 +160,66 @@ void registerValueCmds2() {
 	cmdTable()["jsonparse"] = cmdJsonParse;
 	cmdTable()["eventrt"] = cmdEventRT;
 }
+
+// ---- datamodel command: dm <xml> <op>... ; ops: e<expr> b<expr> a<loc>\x1f<expr> i<loc>\x1f<type>\x1f<expr> v<loc>\x1f<tree> (assign value tree)
+// -> {"r":[{"v":dump}|{"b":bool}|{"ok":true}|{"err":name}...]}
+static std::string cmdDM(const std::vector<std::string>& a) {
+	JW w;
+	w.beginObj();
+	try {
+		Interpreter interp = Interpreter::fromXML(a.at(1), "");
+		JW dummy;
+		setupInterpreter(interp, "", &dummy, false, "");
+		interp.step(0);
+		interp.step(0);
+		DataModel& dm = interp.getActionLanguage()->dataModel;
+		w.key("r").beginArr();
+		for (size_t i = 2; i < a.size(); i++) {
+			const std::string& op = a[i];
+			char k = op.empty() ? '?' : op[0];
+			std::string rest = op.substr(1);
+			w.beginObj();
+			try {
+				if (k == 'e') {
+					Data d = dm.evalAsData(rest);
+					w.key("v"); dumpData(w, d, 0);
+				} else if (k == 'b') {
+					w.key("b").boolean(dm.evalAsBool(rest));
+				} else if (k == 'a') {
+					size_t s = rest.find('\x1f');
+					dm.assign(rest.substr(0, s), Data(rest.substr(s + 1), Data::INTERPRETED));
+					w.key("ok").boolean(true);
+				} else if (k == 'v') {
+					size_t s = rest.find('\x1f');
+					dm.assign(rest.substr(0, s), treeFromWire(rest.substr(s + 1)));
+					w.key("ok").boolean(true);
+				} else if (k == 'i') {
+					size_t s1 = rest.find('\x1f');
+					size_t s2 = rest.find('\x1f', s1 + 1);
+					std::map<std::string, std::string> attr;
+					attr["type"] = rest.substr(s1 + 1, s2 - s1 - 1);
+					std::string ex = rest.substr(s2 + 1);
+					dm.init(rest.substr(0, s1), ex.size() ? Data(ex, Data::INTERPRETED) : Data(), attr);
+					w.key("ok").boolean(true);
+				} else if (k == 'x') {
+					dm.eval(rest);
+					w.key("ok").boolean(true);
+				} else {
+					w.key("err").str("badop");
+				}
+			} catch (Event& e) {
+				w.key("err").str(e.name);
+				std::stringstream ss; ss << e.data;
+				w.key("what").str(ss.str().substr(0, 300));
+			}
+			w.endObj();
+		}
+		w.endArr();
+	} catch (Event& e) {
+		std::stringstream ss; ss << e.data;
+		w.key("exception").str(e.name + ": " + ss.str());
+	}
+	w.endObj();
+	return w.s;
+}
+void registerValueCmds3() { cmdTable()["dm"] = cmdDM; }
